@@ -1,1 +1,139 @@
+// Package escinv: C35 — `!escape` undoes `escape`, `!eschtml` undoes `eschtml`, `!escurl` undoes `escurl`,
+// byte for byte, for any text (valid and invalid UTF-8). The bytes are written to the stdin of the fork
+// and travel through the real builtins as methods: `<stdin> -> escape -> !escape`.
 package escinv
+
+import (
+	"fmt"
+	"strings"
+
+	"verif/mx"
+	"verif/vlib"
+)
+
+var pairs = []string{"escape", "eschtml", "escurl"}
+
+// the reduced byte alphabet of the design
+var reduced = []byte{'&', '<', '>', '"', '\'', '%', '+', '/', '\\', ';', '#', ' ', '\n', 0x00, 0xc3, 0xa9}
+
+func init() {
+	vlib.Register(&vlib.Check{
+		ID: "C35", Engine: "E2",
+		Rule: "every byte string of length <= 1 (quick) / <= 2 (thorough) over all 256 byte values plus every string of length 2..3 (quick) / 3..5 (thorough) over the 16 bytes {& < > \" ' % + / \\ ; # space LF NUL 0xC3 0xA9} is written to the stdin of a fork and piped through `<stdin> -> X -> !X` for X in {escape, eschtml, escurl}; stdout must equal the input bytes. The encoder is also run alone (`<stdin> -> X`) to classify the case; non-trivial = the encoder changed the text (for escape: changed more than adding the surrounding quotes)",
+		Run:    run,
+		Replay: replay,
+		Assumptions: []string{
+			"byte alphabets and length bounds as stated in the rule",
+			"the stdin of the fork is typed `generic`; the builtins read it with ReadAll, so the data type does not take part",
+		},
+	})
+}
+
+func run(c *vlib.Ctx) {
+	mx.Init(c.WorkDir)
+	// calibration
+	if r := mx.Run("<stdin> -> eschtml -> !eschtml", &mx.Opt{Stdin: []byte("a<b")}); r.Stdout != "a<b" || r.Exit != 0 {
+		c.HarnessError("calibration failed: %v", r)
+	}
+	fullMax, redMin, redMax := 1, 2, 3
+	if !c.Quick() {
+		fullMax, redMin, redMax = 2, 3, 5
+	}
+	n := 0
+	buf := make([]byte, 0, 8)
+	each := func(alpha []byte, lo, hi int) bool {
+		ok := true
+		vlib.Seqs(len(alpha), lo, hi, func(idx []int) bool {
+			if !c.Next() {
+				return true
+			}
+			n++
+			if n&0xff == 0 && c.Expired() {
+				ok = false
+				return false
+			}
+			buf = buf[:0]
+			for _, i := range idx {
+				buf = append(buf, alpha[i])
+			}
+			one(c, buf, n%3001 == 1)
+			return true
+		})
+		return ok
+	}
+	full := make([]byte, 256)
+	for i := range full {
+		full[i] = byte(i)
+	}
+	if !each(full, 0, fullMax) {
+		return
+	}
+	// length <= 1 (2) over the reduced alphabet is part of the full range above
+	each(reduced, redMin, redMax)
+}
+
+func witness(x string, in []byte) string { return fmt.Sprintf("%s %q", x, string(in)) }
+
+func one(c *vlib.Ctx, in []byte, sample bool) {
+	for _, x := range pairs {
+		outcome := check(c, x, in)
+		if sample {
+			c.Sample(map[string]any{"pair": x, "input": fmt.Sprintf("%q", string(in)), "outcome": outcome})
+		}
+	}
+}
+
+func check(c *vlib.Ctx, x string, in []byte) string {
+	w := witness(x, in)
+	stdin := append([]byte{}, in...)
+	enc := mx.Run("<stdin> -> "+x, &mx.Opt{Stdin: stdin})
+	r := mx.Run("<stdin> -> "+x+" -> !"+x, &mx.Opt{Stdin: stdin})
+	if r.Hang || enc.Hang {
+		c.Violation("terminates", w, "caller still blocked after ceiling\n"+r.HangStack+enc.HangStack)
+		c.Eval(true, x+" hang")
+		return "hang"
+	}
+	if mx.HasPanicText(r.Stderr) || mx.HasPanicText(enc.Stderr) {
+		c.Violation("no-panic", w, r.String())
+		c.Eval(true, x+" panic")
+		return "panic"
+	}
+	changed := enc.Stdout != string(in)
+	if x == "escape" {
+		changed = enc.Stdout != "\""+string(in)+"\""
+	}
+	outcome := x
+	if changed {
+		outcome += " encoder-changed-text"
+	} else {
+		outcome += " encoder-left-text-alone"
+	}
+	switch {
+	case r.Stdout == string(in) && r.Exit == 0:
+		outcome += " round-trip-ok"
+	case r.Exit != 0:
+		outcome += " error"
+		c.Violation("inverse-gives-back-original", w, fmt.Sprintf("`<stdin> -> %s -> !%s` failed (exit %d, stderr %q); the encoder printed %q", x, x, r.Exit, vlib.Clip(r.Stderr, 300), enc.Stdout))
+	default:
+		outcome += " differs"
+		c.Violation("inverse-gives-back-original", w, fmt.Sprintf("`<stdin> -> %s -> !%s` printed %q, expected the input %q; the encoder printed %q", x, x, r.Stdout, string(in), enc.Stdout))
+	}
+	c.Eval(changed, outcome)
+	return outcome
+}
+
+// replay: witness is `<pair> <go-quoted input>`.
+func replay(c *vlib.Ctx, w string) {
+	mx.Init(c.WorkDir)
+	i := strings.Index(w, " ")
+	if i < 0 {
+		fmt.Println("unrecognised witness")
+		return
+	}
+	var in string
+	if _, err := fmt.Sscanf(w[i+1:], "%q", &in); err != nil {
+		fmt.Println("unrecognised witness:", err)
+		return
+	}
+	check(c, w[:i], []byte(in))
+}
